@@ -178,6 +178,20 @@ func (d *Decoder) decodeValue(value reflect.Value) {
 		return
 	}
 	if m, ok := value.Interface().(Unmarshaler); ok {
+		// objects with custom unmarshaler (msg_container, gzip_packed) are reading their body only, crc code
+		// is read by decoder, like for any other object. bare types (int128, int256) have no crc code at all
+		if o, isObject := value.Interface().(Object); isObject {
+			crcCode := d.PopCRC()
+			if d.err != nil {
+				d.err = errors.Wrap(d.err, "read crc")
+				return
+			}
+			if crcCode != o.CRC() {
+				d.err = fmt.Errorf("invalid crc code: %#v, want: %#v", crcCode, o.CRC())
+				return
+			}
+		}
+
 		err := m.UnmarshalTL(d)
 		if err != nil {
 			d.err = err
